@@ -108,6 +108,90 @@ def execute(steps, subs):
     return out
 
 
+def execute_live(job):
+    """One history on the real EventManager (dispatcher thread, multiprocessing.Queue) and real EventSubscriber objects
+    (relay threads + callbacks).  -> case for TraceBusLive"""
+    import time
+    from proxy.core.event import EventManager, EventSubscriber
+    cid, steps = job
+    mgr = EventManager()
+    mgr.setup()
+    subs, got, ops = {}, {s: [] for s in 'abc'}, []
+    npub = 0
+    err = ''
+
+    def cb(s):
+        def f(ev):
+            got[s][-1].append(ev['event_payload']['n'])
+        return f
+    try:
+        for act, s in steps:
+            if act == 'Subscribe' and s not in subs:
+                got[s].append([])
+                sub = EventSubscriber(mgr.queue, cb(s))
+                sub.setup()
+                subs[s] = sub
+                ops.append({'act': act, 's': s})
+            elif act == 'Unsubscribe' and s in subs:
+                subs.pop(s).shutdown()
+                ops.append({'act': act, 's': s})
+            elif act == 'Publish':
+                npub += 1
+                mgr.queue.publish('req', 1000, {'n': npub}, 'harness')
+                ops.append({'act': act, 's': ''})
+        # every remaining subscriber leaves through shutdown(): no waiting on the harness side, what was published while
+        # it was subscribed has to have reached its callback when shutdown() returns
+        for s in sorted(subs):
+            subs.pop(s).shutdown()
+            ops.append({'act': 'Unsubscribe', 's': s})
+        alive = mgr.dispatcher_thread.is_alive()
+    except Exception as e:     # noqa
+        err = repr(e)[:200]
+        alive = mgr.dispatcher_thread.is_alive() if mgr.dispatcher_thread else False
+    finally:
+        try:
+            mgr.shutdown()
+        except Exception as e:     # noqa
+            err = err or repr(e)[:200]
+    return {'id': cid, 'ops': ops, 'got': got, 'alive': bool(alive) and not err, 'err': err}
+
+
+def run_live(chk, behs, consts):
+    from harness.common import pmap, Hung
+    jobs = []
+    for b in behs:
+        steps = [(a, s) for a, s in b if a in ('Subscribe', 'Unsubscribe', 'Publish')]
+        if sum(1 for a, _ in steps if a == 'Publish') and any(a == 'Subscribe' for a, _ in steps):
+            jobs.append((len(jobs) + 1, steps))
+    cases = []
+    for job, res in zip(jobs, pmap(execute_live, jobs, chunksize=2, watchdog=180)):
+        if isinstance(res, Hung):
+            chk.violation({'clause': 'C18 the live event bus never finished a history', 'part': 'live'}, 'history %s: still running after 180 s' % (job[1],),
+                          {'steps': job[1], 'stack': res.where})
+            continue
+        cases.append(res)
+    c3 = dict(consts)
+    c3.update({'Subs': '{"a","b","c"}', 'NEV': 1000, 'NOPS': 1000})
+    results, rej = tlc.run_sharded('TraceBusLive', 'TraceBusLive.cfg', cases, shards=16, timeout=900, constants=c3)
+    m = tlc.Merged(results)
+    chk.add_tlc('TraceBusLive (%d histories on the real EventManager / EventSubscriber threads)' % len(cases), m)
+    if m.status == 'failed' or any(x.status == 'violated' for x in results):
+        raise MachineryError('TraceBusLive: ' + (m.brief() if m.status == 'failed' else [x for x in results if x.status == 'violated'][0].brief()))
+    chk.traces(len(cases))
+    byid = {c['id']: c for c in cases}
+    for cid, clause in rej:
+        if clause.startswith('machinery'):
+            raise MachineryError('live case %d: %s (%s)' % (cid, clause, byid[cid]['ops']))
+        c = byid[cid]
+        acts = [(o['act'], o['s']) for o in c['ops']]
+        lost_at_unsub = 'events published while subscribed' in clause
+        chk.violation({'clause': clause.split(':')[0][:40] if not lost_at_unsub else 'C18 callback deliveries differ from the events published while subscribed', 'part': 'live'},
+                      'live history %s: %s' % (acts, clause), {'ops': c['ops'], 'callbacks': c['got']})
+    if cases:
+        chk.sample({'part': 'live event bus', 'history': [(o['act'], o['s']) for o in cases[0]['ops']], 'callbacks': cases[0]['got']})
+    chk.cov['live_histories'] = len(cases)
+
+
 def run(chk):
     quick = chk.tier == 'quick'
     plan = [({'Subs': '{"a","b"}', 'NEV': 3, 'NOPS': 7}, ['a', 'b'], 1200 if quick else 6000, 22)]
@@ -135,8 +219,11 @@ def run(chk):
             acts = [(s['act'], s['s']) for s in t['steps'][:int(idx)]]
             sig = {'clause': clause.split(' after ')[0].split(':')[0][:60], 'after': acts[-1][0], 'broken_before': any(a == 'Break' for a, _ in acts)}
             chk.violation(sig, 'history %s: %s' % (acts, clause), {'steps': t['steps'][:int(idx)]})
+        if len(subs) == 3:
+            run_live(chk, behs[:(48 if quick else 400)], consts)
         chk.sample({'subscribers': len(subs), 'history': [(s['act'], s['s']) for s in traces[0]['steps']], 'final_observation': traces[0]['steps'][-1]['obs']})
-    chk.assume('real multiprocessing pipes (simplex); a break is the subscriber closing its reading end, with or without unread data',
+    chk.assume('live part: one issuing thread (the queue order is the issue order); every subscriber stays until its own shutdown()',
+               'real multiprocessing pipes (simplex); a break is the subscriber closing its reading end, with or without unread data',
                'the dispatcher is driven through handle_event one queue entry at a time (run_once without the blocking get)')
 
 
